@@ -7,6 +7,8 @@ soundness statements conclude `Good ∨ Coll mh`.
 import ImmuModel.Merkle.Verify
 import ImmuModel.Merkle.AHTree
 import ImmuModel.Merkle.HTree
+import ImmuModel.Merkle.Proofs.InclSound
+import ImmuModel.Merkle.MthLemmas
 
 namespace ImmuModel.Props.C08
 open ImmuModel ImmuModel.Merkle
@@ -49,5 +51,40 @@ theorem verifyLastInclusion_rejects_zero (mh : MH D) (p : List D) (leaf root : D
 theorem verifyInclusion_single (mh : MH D) (leaf root : D) :
     verifyInclusion mh [] 1 1 leaf root = true ↔ root = leaf := by
   simp [verifyInclusion, inclusionProofLen, inclLenAux, evalInclusion, evalInclAux, popcount]
+
+/-- **Inclusion soundness.** If `VerifyInclusion` accepts `(i, j, leaf)` against a root that
+really is the reference root of the `j` leaves `xs`, then `leaf` is the `i`-th leaf — for every
+tree size, position and (adversarial) proof — or the accepted input exhibits a hash collision.
+(Before the repair 22ec930 this was false: `internal/witness` in Props/C08Witness.lean.) -/
+theorem inclusion_sound (mh : MH D) (p : List D) (i j : Nat) (leaf : D) (xs : List D)
+    (hlen : xs.length = j) (hv : verifyInclusion mh p i j leaf (mth mh xs) = true) :
+    xs[i - 1]? = some leaf ∨ Coll mh :=
+  verifyInclusion_sound mh p i j leaf xs hlen hv
+
+/-- **Last-inclusion soundness.** -/
+theorem lastInclusion_sound (mh : MH D) (p : List D) (i : Nat) (leaf : D) (xs : List D)
+    (hlen : xs.length = i) (hv : verifyLastInclusion mh p i leaf (mth mh xs) = true) :
+    xs.getLast? = some leaf ∨ Coll mh :=
+  verifyLastInclusion_sound mh p i leaf xs hlen hv
+
+/-! Non-vacuity: a free (collision-free) hash over a term algebra; the hypotheses of
+`inclusion_sound` are met by a genuine proof in a 3-leaf tree. -/
+inductive T | l (n : Nat) | n (a b : T) | e
+  deriving DecidableEq
+
+def freeMH : MH T := { leafH := fun b => T.l b.length, nodeH := T.n, emptyH := T.e }
+
+theorem mth_three : mth freeMH [T.l 0, T.l 1, T.l 2] = T.n (T.n (T.l 0) (T.l 1)) (T.l 2) := by
+  rw [mth_triple]; rfl
+
+example : verifyInclusion freeMH [T.l 0, T.l 2] 2 3 (T.l 1)
+    (mth freeMH [T.l 0, T.l 1, T.l 2]) = true := by
+  rw [mth_three]
+  simp [verifyInclusion, inclusionProofLen, inclLenAux, popcount, evalInclusion, evalInclAux, freeMH]
+
+/-- The pre-repair acceptance `([n12], i=2, j=3, leaf3)` is now rejected by the length guard. -/
+example : verifyInclusion freeMH [T.n (T.l 0) (T.l 1)] 2 3 (T.l 2)
+    (mth freeMH [T.l 0, T.l 1, T.l 2]) = false := by
+  simp [verifyInclusion, inclusionProofLen, inclLenAux, popcount]
 
 end ImmuModel.Props.C08
